@@ -292,6 +292,7 @@ def report(prop, tier, seed, eng, results, tmpdir):
             if key not in by_sig:
                 by_sig[key] = (r, v)
     new = 0
+    unconfirmed = []
     total = sum(len(r.get("violations", [])) for r in results)
     for key in sorted(by_sig):
         r, v = by_sig[key]
@@ -322,11 +323,17 @@ def report(prop, tier, seed, eng, results, tmpdir):
         path = write_replay(prop, seed, r["index"], doc)
         ok, out = confirm_replay(path)
         if not ok:
-            print("HARNESS-ERROR: property=%s a violation did not replay in a fresh interpreter (%s)\n%s" % (prop, path, out[-2000:]))
-            return new, "replay-mismatch"
+            unconfirmed.append((path, out[-2000:]))
+            print("NOTE: property=%s a violation did not replay in a fresh interpreter (%s)" % (prop, path))
+            continue
         print("VIOLATION property=%s replay=%s" % (prop, path))
         print("  clause=%s expected=%s actual=%s" % (sv["clause"], json.dumps(sv.get("expected"))[:300], json.dumps(sv.get("actual"))[:300]))
         new += 1
         if new >= 5:
             break
+    if unconfirmed and not new:
+        # something failed an oracle clause but could not be reproduced from its replay file: neither a pass
+        # nor a verdict
+        print("HARNESS-ERROR: property=%s violations were observed but none replayed\n%s" % (prop, unconfirmed[0][1]))
+        return new, "replay-mismatch"
     return new, None
